@@ -342,12 +342,21 @@ package eval
 //@                 (or (= sc -1) (and (< (ite (= kind 4) (+ k 2) k) sc) (< sc n) (vis sc) (= (KIND (NODEAT $e sc)) 3))))))))))
 //@      :pattern ((select (arr (fld $e nodes)) j))))))
 
+//@ macro (LASTEVENT) (select (heap sent.val_S_Event) (old (heap sent.n)))
 //@ func reportEvent C12 C07 C06
 //@   requires [stack-range] (and (<= -1 $osTop) (< $osTop (len $os)) (< $osTop 32767) (not (= $e 0)))
+//@   ensures [one-loop-event] (and (= (heap sent.n) (+ (old (heap sent.n)) 1)) (= (select (heap sent.ch) (old (heap sent.n))) (fld $e EventChan))
+//@        (= (S_Event_EventType (LASTEVENT)) "LOOP") (= (S_Event_Data (LASTEVENT)) $data))
+//@   ensures [private-stack-snapshot] (let ((s (S_Event_Stack (LASTEVENT))))
+//@        (and (= (s_len s) (+ $osTop 1)) (>= (s_arr s) (old (next)))
+//@             (forall ((k Int)) (! (=> (and (<= 0 k) (<= k $osTop)) (= (select (select (heap E_Value) (s_arr s)) (+ (s_off s) k)) (select (old (arr $os)) (+ (off $os) k))))
+//@                :pattern ((select (select (heap E_Value) (s_arr s)) (+ (s_off s) k)))))))
 //@   ensures [frame] (forall ((r Int)) (! (=> (< r (old (next))) (= (select (heap E_Value) r) (select (old (heap E_Value)) r))) :pattern ((select (heap E_Value) r))))
 //@   assigns next E_Value sent.*
 //@   loop 1 (i)
 //@     invariant [range] (and (<= 0 $i) (<= $i (+ $osTop 1)) (fresh $stack) (= (len $stack) (+ $osTop 1)) (= (off $stack) 0))
+//@     invariant [copied-prefix] (forall ((k Int)) (! (=> (and (<= 0 k) (< k $i)) (= (select (arr $stack) k) (select (old (arr $os)) (+ (off $os) k)))) :pattern ((select (arr $stack) k))))
+//@     invariant [nothing-sent-yet] (= (heap sent.n) (old (heap sent.n)))
 //@     invariant [frame] (forall ((r Int)) (! (=> (< r (old (next))) (= (select (heap E_Value) r) (select (old (heap E_Value)) r))) :pattern ((select (heap E_Value) r))))
 //@     decreases (- (+ $osTop 1) $i)
 
@@ -729,3 +738,20 @@ package eval
 //@   loop 1 (rangeindex)
 //@     invariant [ast-closed] (ASTCLOSED)
 //@     invariant [calls-so-far] (and (ONLYSTATELESSCALLS $cc) (>= (heap dyn.n) (old (heap dyn.n))))
+
+// ---------------------------------------------------------------------------
+// C12 — the operator wrapper installed by calAndSetEventNode: one call of the wrapped operator with the same
+// arguments, results passed through, exactly one OP_EXEC event whose Params are a PRIVATE copy of the arguments.
+//@ func calAndSetEventNode.wrapOpEvent.$1 C12 C07
+//@   requires [wrapped] (and (not (= $op 0)) (not (= $e 0)))
+//@   ensures [one-call-passed-through] (and (= (heap dyn.n) (+ (old (heap dyn.n)) 1)) (= (select (heap dyn.fn) (old (heap dyn.n))) $op)
+//@        (= $ret0 (dynres_0_Val $op (old (heap dyn.n)))) (= $ret1 (dynres_1_Err $op (old (heap dyn.n)))))
+//@   ensures [one-op-event] (and (= (heap sent.n) (+ (old (heap sent.n)) 1)) (= (S_Event_EventType (LASTEVENT)) "OP_EXEC") (is.OpEventData (S_Event_Data (LASTEVENT)))
+//@        (let ((d (p_OpEventData (S_Event_Data (LASTEVENT)))))
+//@          (and (= (S_OpEventData_OpName d) $name) (= (S_OpEventData_IsFastOp d) $isFastOp) (= (S_OpEventData_Res d) $ret0) (= (S_OpEventData_Err d) $ret1))))
+//@   ensures [params-private-copy] (let ((ps (S_OpEventData_Params (p_OpEventData (S_Event_Data (LASTEVENT))))))
+//@        (and (= (s_len ps) (len $params)) (or (= (len $params) 0) (>= (s_arr ps) (old (next))))
+//@             (forall ((k Int)) (! (=> (and (<= 0 k) (< k (len $params))) (= (select (select (heap E_Value) (s_arr ps)) (+ (s_off ps) k)) (select (old (arr $params)) (+ (off $params) k))))
+//@                :pattern ((select (select (heap E_Value) (s_arr ps)) (+ (s_off ps) k)))))))
+//@   ensures [caller-memory-untouched] (forall ((r Int)) (! (=> (< r (old (next))) (= (select (heap E_Value) r) (select (old (heap E_Value)) r))) :pattern ((select (heap E_Value) r))))
+//@   assigns next E_Value sent.* dyn.* last.err
